@@ -9,10 +9,11 @@ from harness import core
 
 PROP = "C11"
 GEN = ["Murmur3", "Rendezvous"]
-VO = ["Properties/C11.vo", "Extract/D_C11.vo"]
+VO = ["Properties/C11.vo", "Extract/D_C11.vo", "Extract/O_C11.vo"]
 MODULE = "Properties.C11"
 THEOREMS = ["c11_spec_any_hash", "c11_owner_unique", "c11_spec", "c11_order", "c11_history", "c11_remove", "c11_add"]
-DRIVER = "C11"
+DRIVER = "D_C11"
+ORACLE = "O_C11"
 TECHNIQUE = ("Coq proof about the Gallina translation of RendezvousHash.get_node/add_node/remove_node (regenerated every "
              "run): equals the HRW argmax rule for every hash function, hence order/history independence and minimal "
              "disruption; instantiated with the translated murmur3_32; extracted-model/implementation differential run")
@@ -143,10 +144,10 @@ def search(ctx):
     n_oracle = n_hist = n_route = 0
 
     def strkey(k):
-        r = ctx.driver.call(7, k)
+        r = ctx.oracle.call(7, k)
         return r[1] if r[0] == "ok" else None
     # 1. get_node == oracle (reference murmur + argmax with ties to the greatest name)
-    cases = [c for c in gen_cases(ctx) if all(isinstance(x, str) for x in c[1])]
+    cases = [c for c in gen_cases(ctx) if all(isinstance(x, str) for x in c[1]) and all(ord(ch) < 256 for ch in str(c[2]))]
     reqs, kept = [], []
     for c in cases:
         ks = strkey(c[2])
@@ -157,7 +158,7 @@ def search(ctx):
             reqs.append((5, (list(c[1]), ks, c[3])))
         else:
             reqs.append((6, (list(c[1]), ks, [(k, v) for k, v in c[3]], c[4])))
-    oracle = ctx.driver.call_many(reqs)
+    oracle = ctx.oracle.call_many(reqs)
     for c, o in zip(kept, oracle):
         n_oracle += 1
         r = impl_get_node(c[1], c[2], c[3]) if c[0] == "murmur" else impl_get_node(c[1], c[2], 0, c[3], c[4])
@@ -211,7 +212,7 @@ def search(ctx):
         found.append({"clause": "node name derived from normalised (host, port)", "input": repr(specs),
                       "observed": repr(hc.hasher.nodes), "expected": repr(names), "size": 0})
     rk = ["rk%d" % i for i in range(100)] + [b"rb%d" % i for i in range(30)]
-    o = ctx.driver.call_many([(5, (names, strkey(k), 0)) for k in rk])
+    o = ctx.oracle.call_many([(5, (names, strkey(k), 0)) for k in rk])
     for k, oo in zip(rk, o):
         n_route += 1
         cl, _ = hc._get_client(k)
